@@ -1261,7 +1261,10 @@ impl<'a, 'b> Gen<'a, 'b> {
                     "/" | "%" => {
                         self.nodes += 1;
                         // non-zero literal divisor, rarely the literal 0 (stable message)
-                        let k = if self.u.ratio(1, 12) { 0 } else { *self.u.pick(&[1i64, 2, 3, 4, 5, 7, 10]) };
+                        // jq 1.6 folds constant operands at compile time (`1 / 0`: compile error, `(0 | .) / 0`: NaN):
+                        // a zero divisor only under a dividend that reads the input or a variable
+                        let constant_dividend = !a.t.contains('.') && !a.t.contains('$');
+                        let k = if !constant_dividend && self.u.ratio(1, 12) { 0 } else { *self.u.pick(&[1i64, 2, 3, 4, 5, 7, 10]) };
                         if k != 0 && self.u.ratio(1, 4) {
                             e1(format!("(-{})", k), Shape::Num)
                         } else {
